@@ -74,20 +74,22 @@ var redisRef = map[string]redisCmd{
 	"script": rc("s", 0, "script-cache"), "time": rc("RF", 0, "admin"), "bitop": rc("wm", 2, "key-not-first"),
 	"bitcount": rc("r", 1, ""), "bitpos": rc("r", 1, ""), "wait": rc("s", 0, "connection-state"),
 	"command": rc("ltR", 0, "admin"),
-	"geoadd": rc("wm", 1, ""), "georadius": rc("w", 1, ""), "georadius_ro": rc("r", 1, ""),
+	"geoadd":  rc("wm", 1, ""), "georadius": rc("w", 1, ""), "georadius_ro": rc("r", 1, ""),
 	"georadiusbymember": rc("w", 1, ""), "georadiusbymember_ro": rc("r", 1, ""),
 	"geohash": rc("r", 1, ""), "geopos": rc("r", 1, ""), "geodist": rc("r", 1, ""),
 	"pfselftest": rc("a", 0, "admin"), "pfadd": rc("wmF", 1, ""), "pfcount": rc("r", 1, ""), "pfmerge": rc("wm", 1, ""),
 	"pfdebug": rc("w", 0, "admin"),
-	"xadd": rc("wmFR", 1, ""), "xrange": rc("r", 1, ""), "xrevrange": rc("r", 1, ""), "xlen": rc("rF", 1, ""),
+	"xadd":    rc("wmFR", 1, ""), "xrange": rc("r", 1, ""), "xrevrange": rc("r", 1, ""), "xlen": rc("rF", 1, ""),
 	"xread": rc("rs", 0, "blocking"), "xreadgroup": rc("ws", 0, "blocking"), "xgroup": rc("wm", 2, "key-not-first"),
 	"xsetid": rc("wmF", 1, ""), "xack": rc("wF", 1, ""), "xpending": rc("rR", 1, ""), "xclaim": rc("wRF", 1, ""),
 	"xinfo": rc("rR", 2, "key-not-first"), "xdel": rc("wF", 1, ""), "xtrim": rc("wFR", 1, ""),
 	"post": rc("lt", 0, "admin"), "host:": rc("lt", 0, "admin"), "latency": rc("aslt", 0, "admin"), "lolwut": rc("r", 0, "admin"),
 }
 
-func (c redisCmd) isWrite() bool    { return strings.Contains(c.flags, "w") }
-func (c redisCmd) isReadOnly() bool { return strings.Contains(c.flags, "r") && !strings.Contains(c.flags, "w") }
+func (c redisCmd) isWrite() bool { return strings.Contains(c.flags, "w") }
+func (c redisCmd) isReadOnly() bool {
+	return strings.Contains(c.flags, "r") && !strings.Contains(c.flags, "w")
+}
 
 // docUnsupported is the repository's documented "Unsupported" list
 // (docs/src/arch/protocol/redis/redis.md); reported, not authoritative (it lists SCAN,
